@@ -1,5 +1,6 @@
 """C16 — pending consensus input stays bounded and always keeps the freshest vote."""
 from engine import query as Q
+from . import common
 from engine.terms import show, subterms
 from engine.guards import Atom, Walker, field_path, chain, Inliner
 from .phase_gate import SM, msg_view_number, self_field, view_cmp_atom
@@ -100,35 +101,54 @@ def rule_channel(ctx):
         return
     o = outer[0]
     To = ctx.T(o)
-    keep_local = [l for l, n in o.var_names().items() if n == "keep"]
-    W = Walker(ctx, o, [Atom("keep", "bool", lambda t: t[0] == "var" and t[2] == "keep", [True, False])])
+    # the "new value superseded" flag: the bool local of `o` captured (mutably) by the predicate closure handed to retain.
+    # It is identified by its role, never by its name; v0 is the constant it is initialised with.
+    rc = [c for c in To.calls() if c["q"].endswith("VecDeque::retain")][-1]
+    pred = [x for x in To.args_of(rc) if x[0] == "closure"]
+    p = ctx.F.by_qname.get(pred[0][1], [None])[0] if pred else None
+    ctx.floor(R, "retain predicate closure", 1 if p is not None else 0, 1)
+    if p is None:
+        return
+    flags = [(i, cap) for i, cap in enumerate(pred[0][2]) if cap[0] == "var" and o.locals[cap[1]].s == "bool"]
+    ctx.ob(R, "supersession flag", len(flags) == 1, "the predicate closure captures exactly one bool cell of the enclosing closure" if len(flags) == 1 else "flag cell not identified (captures: %s)" % [show(c)[:40] for c in pred[0][2]], o.loc())
+    if len(flags) != 1:
+        return
+    fi, fcap = flags[0]
+    fl = fcap[1]
+    fname_in_p = p.captures[fi]["name"] if fi < len(p.captures) else None
+    inits = [s["r"]["o"]["k"].get("v") for b in o.blocks for s in b["s"] if s["k"] == "assign" and s["p"]["l"] == fl and not s["p"].get("pr") and s["r"]["k"] == "use" and "k" in s["r"]["o"]]
+    v0 = bool(inits[0]) if len(inits) == 1 and inits[0] in (0, 1) else None
+    ctx.ob(R, "flag initialised once with a constant", v0 is not None, "flag := %s before retain" % str(v0).lower() if v0 is not None else "initialisations of the flag: %s" % inits, o.loc())
+    if v0 is None:
+        return
+    W = Walker(ctx, o, [Atom("flag", "bool", lambda t: t[0] == "var" and t[1] == fl, [True, False])])
     pb = [c["bb"] for c in To.calls() if c["q"].endswith("VecDeque::push_back")]
     ctx.floor(R, "push_back sites", len(pb), 1)
-    names, tab = W.table({"push": pb}, start=max([c["bb"] for c in To.calls() if c["q"].endswith("VecDeque::retain")]))
-    ok = tab.get((True,)) == {"push"} and tab.get((False,)) == set()
-    ctx.ob(R, "append iff keep", ok, "push_back(value) reachable exactly when keep" if ok else "push_back reachability: %s" % {k: sorted(v) for k, v in tab.items()}, o.loc())
-    okv = any(To.args_of(c)[1] in (("upvar", "value"),) for c in To.calls() if c["q"].endswith("VecDeque::push_back"))
+    names, tab = W.table({"push": pb}, start=rc["bb"])
+    ok = tab.get((v0,)) == {"push"} and tab.get((not v0,)) == set()
+    ctx.ob(R, "append iff keep", ok, "push_back(value) reachable exactly when no pending value superseded the new one" if ok else "push_back reachability by flag value (initial %s): %s" % (v0, {k: sorted(v) for k, v in tab.items()}), o.loc())
+    vn = common.pnames(send, index=2)
+    okv = any(common.is_p(To.args_of(c)[1], vn) for c in To.calls() if c["q"].endswith("VecDeque::push_back"))
     ctx.ob(R, "appended value", okv, "the appended element is the sent value" if okv else "the appended element is not the sent value", o.loc())
-    inner = [g for g in ctx.F.fns if g.parent is o]
-    ctx.floor(R, "retain predicate closure", len(inner), 1)
-    if inner:
-        p = inner[0]
-        Tp = ctx.T(p)
+    Tp = ctx.T(p)
 
-        def is_sel(t):
-            return t[0] in ("icall", "call") and any(x[0] == "field" and x[2] == "selection_function" for x in subterms(t))
-        W = Walker(ctx, p, [Atom("selection(x,value)", "enum", is_sel, ["Keep", "DiscardOld", "DiscardNew"])])
-        rt = const_bool_assign_blocks(p, 0, 1)
-        rf = const_bool_assign_blocks(p, 0, 0)
-        kf = []
-        for bi, b in enumerate(p.blocks):
-            for s in b["s"]:
-                if s["k"] == "assign" and Tp.place(s["p"]) == ("upvar", "keep") and s["r"]["k"] == "use" and s["r"]["o"].get("k", {}).get("v") == 0:
+    def is_sel(t):
+        return t[0] in ("icall", "call") and any(x[0] == "field" and x[2] == "selection_function" for x in subterms(t))
+    W = Walker(ctx, p, [Atom("selection(x,value)", "enum", is_sel, ["Keep", "DiscardOld", "DiscardNew"])])
+    rt = const_bool_assign_blocks(p, 0, 1)
+    rf = const_bool_assign_blocks(p, 0, 0)
+    kf, kother = [], []
+    for bi, b in enumerate(p.blocks):
+        for st in b["s"]:
+            if st["k"] == "assign" and Tp.place(st["p"]) == ("upvar", fname_in_p):
+                if st["r"]["k"] == "use" and st["r"]["o"].get("k", {}).get("v") == int(not v0):
                     kf.append(bi)
-        names, tab = W.table({"retain_true": rt, "retain_false": rf, "keep:=false": kf})
-        exp = {("Keep",): {"retain_true"}, ("DiscardOld",): {"retain_false"}, ("DiscardNew",): {"retain_true", "keep:=false"}}
-        for k, e in exp.items():
-            ctx.ob(R, "retain on %s" % k[0], tab.get(k) == e, "-> %s" % sorted(tab.get(k, [])) if tab.get(k) == e else "on %s the retain predicate does %s (specified %s)" % (k[0], sorted(tab.get(k, [])), sorted(e)), p.loc())
+                else:
+                    kother.append(bi)
+    names, tab = W.table({"retain_true": rt, "retain_false": rf, "flag:=superseded": kf, "flag:=other": kother})
+    exp = {("Keep",): {"retain_true"}, ("DiscardOld",): {"retain_false"}, ("DiscardNew",): {"retain_true", "flag:=superseded"}}
+    for k, e in exp.items():
+        ctx.ob(R, "retain on %s" % k[0], tab.get(k) == e, "-> %s" % sorted(tab.get(k, [])) if tab.get(k) == e else "on %s the retain predicate does %s (specified %s)" % (k[0], sorted(tab.get(k, [])), sorted(e)), p.loc())
     # who mutates the buffer
     muts = set()
     for g in ctx.F.fns:
@@ -201,8 +221,15 @@ def cache_rule(ctx, R, handler, views_cache, qcs_cache, process):
                 if g is not None:
                     rt = Inliner(ctx).ret_term(g)
                     okc = rt is not None and rt[0] == "call" and rt[1].endswith("HashSet::contains")
-                # the captured set derives from the views cache values
-                okc = okc and any(x[0] == "call" and x[1].endswith("BTreeMap::values") and chain(x[2][0])[1][-1:] == [views_cache] for x in subterms(cl))
+                # the captured set derives from the views cache values (iterator chain or loop)
+                def from_views(t):
+                    if "decl" not in t["f"]:
+                        return False
+                    q = f.callee(t)[0].qname
+                    return q.endswith(("BTreeMap::values", "BTreeMap::iter", "BTreeMap::into_values")) and bool(t["args"]) and chain(T.operand(t["args"][0]))[1][-1:] == [views_cache]
+                cl_local = Q.LocalFlow._local_op(c["t"]["args"][1]) if len(c["t"]["args"]) > 1 else None
+                okc = okc and (any(x[0] == "call" and x[1].endswith("BTreeMap::values") and chain(x[2][0])[1][-1:] == [views_cache] for x in subterms(cl))
+                               or (cl_local is not None and Q.LocalFlow(f).derives_from_call_where(cl_local, from_views)))
             if okc:
                 ret_calls.append(c["bb"])
     ctx.ob(R, "%s pruning present" % handler, bool(ret_calls), "%s.retain(|view, _| active_views.contains(view)) with active_views = %s.values()" % (qcs_cache, views_cache) if ret_calls else
